@@ -12,9 +12,12 @@ CHECKS = {
         category="proof", design_ref="DESIGN.md §4 C13",
         text=("Round-trip theorems for the big-endian integer codecs (any width, every value), float/double bytes under both "
               "sysEndianType values, element arrays under the four endianness pairs, size fields (4 and 8 bytes, whole range) and the "
-              "1/2/3-bit and 0..8-bit packers for every length and content, proved in Coq with no axioms; the model is run against "
-              "the exported C functions (ASan build) on every 16-bit value, boundary/random 32/64-bit values and every packer length."),
-        note=TB_COMMON + "Host little-endian LP64; the inline residual-bit reader of the decoders is tied through C01, not here.",
+              "1/2/3-bit and 0..8-bit packers for every length and content, proved in Coq with no axioms; the unpacker of the residual bits that the "
+              "decompressors carry inline (114 sites of one form, counted from the source on every run; its four mask helpers translated from ByteToolkit.c) "
+              "is proved to return exactly the addressed bits for every offset, width and pair of bytes. The model is run against "
+              "the exported C functions (ASan build) on every 16-bit value, boundary/random 32/64-bit values, every packer length, and the inline "
+              "unpacker snippet with the library's helpers on every offset, width and byte."),
+        note=TB_COMMON + "Host little-endian LP64; the inline unpacker's control structure is transcribed by hand (the site-form fact ties it), its helpers are generated.",
         technique="Coq proof (induction + finite sweeps lifted by forallb_forall) + model/implementation differential check"),
     "C09": dict(
         category="proof", design_ref="DESIGN.md §4 C09",
@@ -118,8 +121,9 @@ CHECKS = {
     "C15": dict(
         category="proof", design_ref="DESIGN.md §4 C15",
         text=("Concurrent calls as threads of atomic blocks (the code between the library's SZ_VERIF_YIELD points) of writes and reads of the process globals; "
-              "a schedule is any list of thread ids. Proved without axioms, for any number of threads, programs and schedules: calls that agree on every "
-              "global they write and read a global only after writing it observe under every schedule exactly what they observe alone (invariant by induction "
+              "(and copies: a setting saved into a local and put back on return); a schedule is any list of thread ids. Proved without axioms, for any number of "
+              "threads, programs and schedules: calls that agree on every global they write, read only tracked globals and only after writing them, and copy only "
+              "into untracked ones observe under every schedule exactly what they observe alone (invariant by induction "
               "over the schedule, completion of every thread included). The property as stated (no agreement) is a refuted statement with a witness schedule, "
               "replayed on the implementation: it is a listed finding. On every run the implementation executes 2..16 calls under explicit random schedules "
               "(deterministic hand-off at the yield points) and under real concurrency; the parameter block of every concurrent stream is compared with the "
@@ -171,12 +175,14 @@ CHECKS = {
         category="proof", design_ref="DESIGN.md §4 C01",
         text=("Generic theorems for every SZ kernel (any value type, predictor, quantiser): decoder history = encoder history and element-wise "
               "bound from three obligations; the same two theorems with the obligations evaluated per element by the model. Instantiated with the "
-              "SZ-1.4 1-D float and double kernels transcribed over Flocq binary32/binary64 (range, median, required length, mantissa truncation, "
-              "mixed int/float/double expressions): the float kernel's re-check is proved to make predicted elements meet the bound on every input; "
-              "the double kernel's missing re-check and the float code-0 edge are refuted statements with witnesses (listed findings). On every run "
-              "the model reproduces the implementation's 1-D reconstruction bit for bit (bound and interval count read from the stream), its checks "
-              "are evaluated, and the bound oracle runs over ranks 1..4, both kernels families, 12 configurations, 4 modes under ASan."),
-        note=TB_COMMON + "Stdlib real-number axioms + classic + functional extensionality through Flocq (Print Assumptions per theorem in the evidence). The 2-D..4-D SZ-1.4 and regression kernels are not transcribed: they are covered by the generic theorems only via the implementation oracle (partial). Truncation-within-bound is an evaluated check, not a theorem.",
+              "SZ-1.4 1-D float and double kernels and the 2-D and 3-D float kernels transcribed over Flocq binary32/binary64 (range, median, required "
+              "length, mantissa truncation, mixed int/float/double expressions, Lorenzo stencils over the raster-order history). For every input: a code is "
+              "only emitted after the re-check passed (all five kernels), it is never 0 (1-D), and the decoder's expression reproduces the encoder's "
+              "reconstruction bit for bit (1-D: by the symmetry of round-to-nearest-even under negation, proved over Flocq's definitions; 2-D/3-D: the "
+              "same term). The pre-repair double kernel (no re-check) and float code-0 edge are kept as refuted statements with witnesses. On every run "
+              "the model reproduces the implementation's 1-D, 2-D and 3-D reconstructions bit for bit (bound and interval count read from the stream), "
+              "its remaining checks are evaluated, and the bound oracle runs over ranks 1..4, both kernel families, 12 configurations, 4 modes under ASan."),
+        note=TB_COMMON + "Stdlib real-number axioms + classic + functional extensionality through Flocq (Print Assumptions per theorem in the evidence). The 4-D and double multi-dimensional SZ-1.4 kernels and the regression kernels are not transcribed: they are covered by the generic theorems only via the implementation oracle (partial). Truncation-within-bound and code <> 0 for 2-D/3-D are evaluated checks, not theorems.",
         technique="Coq proof (generic codec induction, Flocq-based kernel instances, vm_compute witnesses) + bit-exact differential + bound oracle"),
     "C08": dict(
         category="proof", design_ref="DESIGN.md §4 C08",
